@@ -1123,6 +1123,7 @@ def run(rep, tier):
     rep.floor("attribute gathering cases", c15_audit.gather_rule(rep, ur), 2)
     rep.floor("shifted copies inside the caller's buffers", c15_audit.inplace_rule(rep, ud), 1)
     c15_audit.reply_authenticated_rule(rep, ur)
+    rep.floor("codes verified as replies", c15_audit.reply_code_rule(rep, ur, macro_consts(["RADIUS_PKT_TYPE_" + n_ for n_ in c15_audit.REPLY_CODES + c15_audit.RANDOM_AUTH_CODES + c15_audit.REQUEST_CODES])), 14)
     rep.floor("packet codes with a NULL authenticator", c15_audit.reply_needs_request_authenticator_rule(rep, ur, macro_consts(["RADIUS_PKT_TYPE_" + n_ for n_ in c15_audit.REPLY_CODES + c15_audit.RANDOM_AUTH_CODES + c15_audit.REQUEST_CODES])), 14)
     ct_compare_rule(rep, ur)
     rep.floor("verify outcome combinations", verify_rule(rep, ur), 8)
